@@ -755,8 +755,16 @@ def mutate(rng, prog):
         if i is None or not N[i]["arms"]:
             return None
         a = rng.choice(N[i]["arms"])
-        c = rng.choice(["variant", "addbind", "dropbind", "dupbind"])
-        if c == "variant":
+        c = rng.choice(["variant", "sibling", "sibling", "addbind", "dropbind", "dupbind"])
+        if c == "sibling":
+            # take over the variant and binding shape of another arm of the same match
+            others = [o for o in N[i]["arms"] if o is not a and o["v"] not in ("_", a["v"])]
+            if not others:
+                return None
+            o = rng.choice(others)
+            a["v"], a["hb"] = o["v"], o["hb"]
+            a["bs"] = ["zz_s%d" % k for k in range(len(o["bs"]))]
+        elif c == "variant":
             a["v"] = rng.choice(["Some", "None", "Accept", "ZzV", "_"] + [v["n"] for d in D if d["k"] == "enum" for v in d["vs"]])
             if a["v"] == "_":
                 a["bs"], a["hb"] = [], False
@@ -888,7 +896,7 @@ FAMILIES = ["operand-bool", "operand-str", "logic-int", "cond-nonbool", "arg-cou
             "name-undeclared", "name-out-of-scope", "match-drop-arm", "match-after-default",
             "match-dup-arm", "neg-unsigned", "exit-forbidden", "assign-non-local", "redeclare",
             "recursive-type", "recursive-const", "elem-type", "return-type", "let-type", "assign-type",
-            "fallthrough-after-loop"]
+            "fallthrough-after-loop", "match-rename-arm"]
 # the rule list of the property statement; every rule must be hit by a family that produced mutants
 RULES = ["operand type / arithmetic or ordering on non-numbers", "operand type", "condition type",
          "wrong argument count", "argument type", "missing, duplicate or unknown record field", "field type",
@@ -1005,7 +1013,8 @@ def spec_to_impl(tier, ev, verd):
         if cl == "type":
             rejected_ok += 1
         elif cl in ("ok", "crash-accepted"):
-            rule = c.get("lax_rule") or c["family"]
+            # a renamed arm leaves one variant covered twice AND another one uncovered: never the known duplicate-arm finding
+            rule = c.get("lax_rule") or ("non-exhaustive-match+duplicate-variant-arm" if c["family"] == "match-rename-arm" else c["family"])
             after = "" if cl == "ok" else " (code generation then panicked: %s)" % norm_msg(res)
             verd.report({"kind_of_failure": "ill-typed-accepted", "rule": rule},
                         "ILL-TYPED SCRIPT ACCEPTED (edit %s at %s of seed %s breaks the rule \"%s\"; the judgement rejects it, "
@@ -1204,7 +1213,9 @@ def replay(path):
     elif obj.get("expect") == "type-error":
         if accepted:
             ill = True
-            verd.report({"kind_of_failure": "ill-typed-accepted", "rule": obj.get("lax_rule") or obj.get("family", "?")},
+            fam = obj.get("family", "?")
+            verd.report({"kind_of_failure": "ill-typed-accepted", "rule": obj.get("lax_rule") or
+                         ("non-exhaustive-match+duplicate-variant-arm" if fam == "match-rename-arm" else fam)},
                         "ill-typed script accepted:\n" + obj["src"], obj)
         elif cl not in ("type", "crash"):
             verd.report({"kind_of_failure": "not-a-type-error", "rule": obj.get("family", "?")}, "not a type error report: %s" % short(res), obj)
